@@ -1,4 +1,4 @@
-CONSTANTS MaxOps = 4
+CONSTANTS MaxOps = 4 Alphabet = "full"
 INIT Init
 NEXT Next
 INVARIANTS OnePerSenderKind OnlyValid KeepsMax NothingLost Done
